@@ -1,6 +1,7 @@
 import IodineModel.Server.Bytes
 import IodineModel.Lemmas.BytesD
 import IodineModel.Lemmas.BytesE
+import IodineModel.Lemmas.BytesI
 import IodineModel.Props.C10
 import IodineModel.Props.C14
 /-
@@ -171,6 +172,119 @@ theorem session_nsa_wellformed_partial (cfg : Config) (b : BSrv) (_hr : LegalRea
   intro hlen
   exact BytesL.nsaBytes_echo b.srv.cfg q bytes hid hlegal hlen hbytes
 
+/-! ### Full strength: the premises discharged as invariants
+
+The payload premise of `session_datagrams_wellformed_partial` and the length restriction of `session_nsa_wellformed_partial` are
+consequences of two things iodined's `main()` and the operating system guarantee: the configuration passed `main`'s checks,
+and what arrives on sockets and the tun device are bytes. -/
+
+/-- What `main()` of iodined.c enforces before `tunnel()` starts: `-m mtu` is a positive `int` (`if (mtu <= 0) usage`), the
+netmask has 8..30 bits (`if (netmask > 30 || netmask < 8)`), `check_topdomain(topdomain, 1, …)` accepted the top domain
+(3..128 characters, labels of 1..63 letters/digits/'-', optionally a leading "*.").  (Nothing is needed about `my_ip`, the
+password, `ns_ip` or the ports.) -/
+def ConfigOk (cfg : Config) : Prop :=
+  0 < cfg.mtu ∧ cfg.mtu < 2 ^ 31 ∧ 8 ≤ cfg.netmask ∧ cfg.netmask ≤ 30 ∧ Common.checkTopdomain cfg.topdomain true = 0
+
+instance (cfg : Config) : Decidable (ConfigOk cfg) := by unfold ConfigOk; infer_instance
+
+/-- the input of an iteration consists of bytes: datagram octets and tun frame octets are `< 256`
+(lengths are arbitrary: `recvmsg`/`read` cut at 64 KiB; `rand()` values and clock values are arbitrary) -/
+def ByteDgram : BInput → Prop
+  | .dgram _ bytes => IsBytes bytes
+  | .tun frame => IsBytes frame
+  | .bind _ => True
+  | .tick => True
+
+instance : DecidablePred ByteDgram := fun i => by cases i <;> unfold ByteDgram <;> infer_instance
+
+/-- states reachable from start-up through iterations on arbitrary byte-valued inputs whose decoded questions are legal -/
+inductive WfReachable (cfg : Config) : BSrv → Prop where
+  | init (rnd : List Nat) : WfReachable cfg (bstart cfg rnd)
+  | step {b : BSrv} (inp : BInput) (now' : Nat) : WfReachable cfg b → LegalDgram inp → ByteDgram inp →
+      WfReachable cfg (biteration b inp now').1
+
+theorem configOk_iff (cfg : Config) : ConfigOk cfg → BytesL.CfgOk cfg :=
+  fun h => ⟨⟨h.1, h.2.1, h.2.2.2.1⟩, h.2.2.2.2⟩
+
+theorem byteDgram_iff (inp : BInput) : ByteDgram inp ↔ BytesL.ByteInput inp := by
+  cases inp <;> exact Iff.rfl
+
+theorem wfReachable_legal {cfg : Config} {b : BSrv} (h : WfReachable cfg b) : LegalReachable cfg b := by
+  induction h with
+  | init rnd => exact .init rnd
+  | step inp now' _ hl _ ih => exact .step inp now' ih hl
+
+theorem wfReachable_inv {cfg : Config} (hc : ConfigOk cfg) {b : BSrv} (h : WfReachable cfg b) : BytesL.BInv2 b := by
+  induction h with
+  | init rnd => exact BytesL.binv2_start cfg (configOk_iff cfg hc) rnd
+  | step inp now' _ hl hb ih =>
+    exact (BytesL.binv2_step ih inp now' ((legalDgram_iff inp).1 hl) ((byteDgram_iff inp).1 hb)).1
+
+/-- **session_payloads_are_bytes.**  Under `ConfigOk`, in every state reachable through byte-valued inputs with legal questions,
+every `write_dns(q, data, datalen, downenc)` of the next iteration carries a byte string of 2..4096 bytes, or the one byte "x": data answers are 2 header
+bytes + at most min(fragsize, 4094) payload bytes, cache replays at most 4096, the login reply at most 15+1+15+1+10+1+2 bytes, the
+version answers 9, the 'I' answer 5 or 17, the 'Z' echo at most 255, the fragment-size probe 2..2047, all others constants; the
+shortest is the one-byte "x" sent for a recognised duplicate. -/
+theorem session_payloads_are_bytes (cfg : Config) (hc : ConfigOk cfg) (b : BSrv) (hr : WfReachable cfg b)
+    (inp : BInput) (now' : Nat) (hl : LegalDgram inp) (hb : ByteDgram inp)
+    (dst : Addr) (id ty dn : Nat) (name data : List Nat) (tag : Tag)
+    (he : Event.ans dst id ty dn name data tag ∈ out b.srv ⟨toInput b.srv inp, now'⟩) :
+    IsBytes data ∧ (2 ≤ data.length ∨ data = [120]) ∧ data.length ≤ 4096 :=
+  (BytesL.binv2_step (wfReachable_inv hc hr) inp now' ((legalDgram_iff inp).1 hl) ((byteDgram_iff inp).1 hb)).2.2
+    dst id ty dn name data tag he
+
+/-- **session_datagrams_wellformed** (C10 for whole sessions, answers of `write_dns`).  For every configuration that passes
+`main()`'s checks, every state of the server process reachable from start-up through ARBITRARY byte-valued inputs (any datagram
+bytes of any length, tun frames, forwarded replies, any `rand()` values, any clock) whose decoded questions are legal names, every
+further such input and every datagram `tx dst bytes` the iteration hands to `sendto` through `write_dns`:
+`bytes` is a well-formed RFC 1035 response (strict parser: counts match, labels 1..63, names ≤ 255, pointers backwards to label
+boundaries, RDLENGTH exact, TXT tiled), QR|AA, that carries exactly the id, question name and type of an `ans` event of this
+iteration — i.e. (by `session_answer_echoes_received_query` / C14) of a query the server decoded from a datagram received from `dst`
+in this or an earlier iteration — with at least one answer record, every answer record owned by the question name in class IN. -/
+theorem session_datagrams_wellformed (cfg : Config) (hc : ConfigOk cfg) (b : BSrv) (hr : WfReachable cfg b)
+    (inp : BInput) (now' : Nat) (hl : LegalDgram inp) (hb : ByteDgram inp) (dst : Addr) (bytes : List Nat)
+    (htx : BEvent.tx dst bytes ∈ (biteration b inp now').2.1) :
+    ∃ id ty dn name data tag,
+      Event.ans dst id ty dn name data tag ∈ out b.srv ⟨toInput b.srv inp, now'⟩ ∧
+      id < 65536 ∧ LegalName name ∧ ty ∈ TunnelTypes ∧ WellFormedAnswerTo id ty name bytes := by
+  obtain ⟨id, ty, dn, name, data, tag, he, h1, h2, h3, h4⟩ :=
+    session_datagrams_wellformed_partial cfg b (wfReachable_legal hr) inp now' hl dst bytes htx
+  obtain ⟨d1, d2, d3⟩ := session_payloads_are_bytes cfg hc b hr inp now' hl hb dst id ty dn name data tag he
+  exact ⟨id, ty, dn, name, data, tag, he, h1, h2, h3, h4 d1 (by rcases d2 with d2 | d2; omega; rw [d2]; decide) d3⟩
+
+/-- **session_matched_top_short.**  The part of a legal query name that `query_datalen` matches against a top domain accepted by
+`check_topdomain` — what `handle_ns_request` passes to `dns_encode_ns_response` as the domain — has at most 191 characters (the
+domain, ≤ 128; or one label ≤ 63 standing for the `*` and the rest of the domain), so `ns.<it>` fits a DNS name. -/
+theorem session_matched_top_short (q t : List Nat) (n : Nat) (hq : LegalName q) (ht : Common.checkTopdomain t true = 0)
+    (h : Common.queryDatalen q t = some n) : (q.drop n).length ≤ 191 := BytesL.matched_top_le hq ht h
+
+example : Common.queryDatalen ([120, 46] ++ List.replicate 63 97 ++ [46, 116, 46, 99, 111]) [42, 46, 116, 46, 99, 111] = some 2 := by
+  decide +kernel
+
+/-- **session_nsa_wellformed** (NS and A responses, all legal names).  Under `ConfigOk`, every datagram `nsa dst bytes` sent by
+`handle_ns_request` / `handle_a_request` answers the query `q` decoded from THIS iteration's datagram and is a well-formed response
+echoing `q`'s id, name and type with exactly one answer record for that name, type and class IN. -/
+theorem session_nsa_wellformed (cfg : Config) (hc : ConfigOk cfg) (b : BSrv) (hr : WfReachable cfg b)
+    (inp : BInput) (now' : Nat) (hl : LegalDgram inp) (dst : Addr) (bytes : List Nat)
+    (hnsa : BEvent.nsa dst bytes ∈ (biteration b inp now').2.1) :
+    ∃ q, toInput b.srv inp = .q q ∧ Event.nsa dst ∈ out b.srv ⟨toInput b.srv inp, now'⟩ ∧
+      q.id < 65536 ∧ LegalName q.name ∧
+      ∃ m, parseMsg bytes = some m ∧ m.id = q.id ∧ m.flags = 0x8400 ∧ m.qd = [(labels q.name, q.type, 1)] ∧
+        m.an.length = 1 ∧ (∀ r ∈ m.an, r.owner = labels q.name ∧ r.type = q.type ∧ r.cls = 1) ∧ m.ns = [] := by
+  have hinv := wfReachable_inv hc hr
+  obtain ⟨pr, hpr, hbm⟩ := BytesL.mem_encodeEvents hnsa
+  obtain ⟨hmem, _, hns, _⟩ := (BytesL.encodeEventsL_spec _ _ _ _ hinv.base.td).2 pr hpr
+  obtain ⟨q, hq, hev, hbytes⟩ := hns dst bytes hbm
+  rw [hev] at hmem
+  have hin : toInput b.srv inp = .q q := by
+    cases hti : toInput b.srv inp <;> rw [hti] at hq <;> simp [queryOf] at hq
+    rw [hq]
+  obtain ⟨_, hid, _, hleg⟩ := BytesL.toInput_q hin
+  have hlegal := hleg ((legalDgram_iff inp).1 hl)
+  refine ⟨q, hin, hmem, hid, hlegal, ?_⟩
+  exact BytesL.nsaBytes_echo_of b.srv.cfg q bytes hid hlegal
+    (fun dlen hd => by have := BytesL.matched_top_le hlegal hinv.cfg.2 hd; omega) hbytes
+
 /-- **session_answer_echoes_received_query** ("each answer carries the id, name and type of the query it answers", over
 whole runs; no hypothesis on the datagrams).  Let the server process run from start-up through ANY inputs `l` (arbitrary datagram
 bytes, tun frames, forwarded replies, any clock values) and then through one more iteration on `inp`.  Every `write_dns` of
@@ -260,6 +374,37 @@ def exBadEcho : Bool :=
 example : ¬ LegalDgram (.dgram exSrc exDgramBad) ∧
     (dnsDecodeQuery { pkt := exDgramBad.toArray, res := #[], cap := 65536 }).map (·.name) = .ok [122, 46, 46, 116, 46, 99, 111] ∧
     labels [122, 46, 46, 116, 46, 99, 111] = [[122], [], [116], [99, 111]] ∧ exBadEcho = true := by
+  decide +kernel
+
+/-- non-vacuity of the full-strength theorems: the example configuration passes `main()`'s checks, the example datagrams are bytes -/
+example : ConfigOk exCfgS ∧ ByteDgram (.dgram exSrc exDgramV) ∧ ByteDgram (.dgram exSrc exDgramNs) := by decide +kernel
+
+example (dst : Addr) (bytes : List Nat)
+    (h : BEvent.tx dst bytes ∈ (biteration (bstart exCfgS []) (.dgram exSrc exDgramV) 1000).2.1) :=
+  session_datagrams_wellformed exCfgS (by decide +kernel) _ (.init []) (.dgram exSrc exDgramV) 1000 (by decide +kernel)
+    (by decide +kernel) dst bytes h
+
+example (dst : Addr) (bytes : List Nat)
+    (h : BEvent.nsa dst bytes ∈ (biteration (bstart exCfgS []) (.dgram exSrc exDgramNs) 1000).2.1) :=
+  session_nsa_wellformed exCfgS (by decide +kernel) _ (.init []) (.dgram exSrc exDgramNs) 1000 (by decide +kernel) dst bytes h
+
+/-- **Why `LegalName` bounds the length** (finding, confirmed on the C code with harness/h_srv: see the report).  A query whose
+question name has four labels of 63, 63, 63 and 57 bytes plus "t.co" — no '.' or NUL in any label, every label ≤ 63, but 256 bytes
+on the wire, one more than RFC 1035 allows — is accepted by `dns_decode` (`name[256]` holds the 254 characters) and answered
+(here by the 'Z' echo); `putname` re-encodes all 254 characters, so the datagram the server sends carries a 256-byte question
+name: the strict parser rejects it.  `dns_decode` should refuse names of more than 253 characters. -/
+def exDgramLong : List Nat :=
+  [0x12, 0x34, 1, 0, 0, 1, 0, 0, 0, 0, 0, 0] ++ (63 :: 122 :: List.replicate 62 97) ++ (63 :: List.replicate 63 97) ++
+    (63 :: List.replicate 63 97) ++ (57 :: List.replicate 57 97) ++ [1, 116, 2, 99, 111, 0] ++ [0, 10, 0, 1]
+
+def exLongMalformed : Bool :=
+  match (biteration (bstart exCfgS []) (.dgram exSrc exDgramLong) 1000).2.1 with
+  | [.tx _ bytes] => (parseMsg bytes).isNone && decide (IsBytes bytes)
+  | _ => false
+
+example : ByteDgram (.dgram exSrc exDgramLong) ∧ ¬ LegalDgram (.dgram exSrc exDgramLong) ∧
+    ((dnsDecodeQuery { pkt := exDgramLong.toArray, res := #[], cap := 65536 }).map fun d => (d.rv, d.name.length)) = .ok (254, 254) ∧
+    exLongMalformed = true := by
   decide +kernel
 
 end Iodine.C10
